@@ -384,6 +384,7 @@ theorem vecOp_refines (g : VecGeo) (bs : Bytes) (len : Nat) (hI : VInv g bs len)
   | item _ _ => exact absurd hop (by simp [OpWF])
   | assign _ => exact absurd hop (by simp [OpWF])
   | setField _ _ _ => exact absurd hop (by simp [OpWF])
+  | last _ => exact absurd hop (by simp [OpWF])
 end FV
 
 namespace FV
